@@ -18,7 +18,7 @@ func init() {
 		ID:    "C10",
 		Level: "exploration",
 		Rule: "case i: limit L in {1 KiB, 4 KiB, 100 KiB, 1 MiB} x direction (request / response) x size family (message bytes L-1, L, L+1, 2L, 10L, 100L (L<=100 KiB); " +
-			"compressible payloads with gzip ratios ~1:1 .. ~1000:1; many-empty-submessage messages whose JSON is far larger than their binary form; large error messages (error body, end-of-stream frame, also compressed and inflating to 1000 L); frames or bodies that only ANNOUNCE a huge length; incompressible payloads sent as gzip) " +
+			"compressible payloads with gzip ratios ~1:1 .. ~1000:1; many-empty-submessage messages whose JSON is far larger than their binary form; large error messages (error body, end-of-stream frame, also compressed and inflating to 1000 L; a family of its own for error BODIES of un-enveloped backends up to 1000 L with declared or undeclared lengths, where delivery of a body beyond 4L+64 KiB is itself a violation); frames or bodies that only ANNOUNCE a huge length; incompressible payloads sent as gzip) " +
 			"x client form x target protocol/codec/compression x declared or undeclared lengths. Each scenario runs twice, serially in a quiet process: a calibration run under a 1 GiB limit records every representation " +
 			"size actually observed (wire, decompressed, re-encoded, re-compressed; both legs), then the run under L. oracle: (a) all representations <= L => success with intact messages; (b) failure of a size-affected RPC => resource_exhausted; " +
 			"(c) always: largest pooled-buffer capacity seen by the pool hooks (Get/Put/Wrap) during the request, and of every buffer handed out once the request is over, <= 4L+64 KiB (TotalAlloc deltas are recorded as evidence only: the heap is shared with the harness). Self-calibrated boundaries: L = max representation (must pass) and max-1. " +
@@ -165,9 +165,19 @@ func runC10(c *Ctx, i int, r *rand.Rand) {
 	if !c.Thorough() && L == 1<<20 && chance(r, 85) {
 		L = pick(r, []uint32{1 << 10, 4 << 10, 100 << 10})
 	}
-	family := pick(r, []string{"size", "size", "size", "gzip-ratio", "gzip-ratio", "json-expansion", "big-error", "calibrated", "calibrated", "declared-length"})
+	family := pick(r, []string{"size", "size", "size", "gzip-ratio", "gzip-ratio", "json-expansion", "big-error", "calibrated", "calibrated", "declared-length", "error-body"})
+	// "error-body": the big-error family aimed at the one adapter that buffers a whole error body (un-enveloped
+	// Connect unary backend), small limits so that 100 L and 1000 L are cheap
+	errBody := family == "error-body"
+	if errBody {
+		family = "big-error"
+		L = pick(r, []uint32{1 << 10, 4 << 10})
+	}
 	dirReq := chance(r, 50)
 	mname := pick(r, []string{"Unary", "Unary", "ClientStream", "ServerStream", "Bidi"})
+	if errBody {
+		mname = "Unary"
+	}
 	m := kitchenInfo[mname]
 	form := pick(r, formsFor(m))
 	cfg := genConfig(r)
@@ -270,7 +280,20 @@ func runC10(c *Ctx, i int, r *rand.Rand) {
 	script.FrameComp = repeatBool(true, nresp)
 	if family == "big-error" {
 		esz := pick(r, []int{int(L) / 2, int(L), 2 * int(L), 10 * int(L)})
-		if chance(r, 50) {
+		if L <= 4<<10 && chance(r, 40) {
+			esz = 100 * int(L) // far enough past the limit to show in the pool hooks despite the additive slack
+		}
+		if chance(r, 40) {
+			// an error BODY (un-enveloped Connect unary backend), with and without a declared length
+			cfg.Protocols = []string{"connect"}
+			script.DeclLen = chance(r, 60)
+		}
+		if errBody {
+			cfg.Protocols = []string{"connect"}
+			script.DeclLen = chance(r, 60)
+			esz = pick(r, []int{int(L) / 2, int(L) - 100, int(L) + 1, 2 * int(L), 100 * int(L), 1000 * int(L)})
+		}
+		if !errBody && chance(r, 50) {
 			// a compressed end-of-stream frame / error body: tiny on the wire, large once inflated
 			script.Comp, script.CompressEnd = "gzip", true
 			esz = pick(r, []int{int(L) / 2, int(L) - 200, 2 * int(L), 10 * int(L), 100 * int(L), 1000 * int(L)})
@@ -446,6 +469,16 @@ func runC10(c *Ctx, i int, r *rand.Rand) {
 				}
 			}
 		}
+	}
+	if family == "big-error" && script.Err != nil && e.Backend.Obs.Proto == "connect-unary" && !e.Backend.Obs.Direct {
+		c.Count(fmt.Sprintf("error-body:declared=%v/compressed=%v/beyond-bound=%v", script.DeclLen, script.CompressEnd, len(script.Err.Msg) > 4*int(limit)+64<<10))
+	}
+	// (b'') the error body of an un-enveloped backend has to be held in full before it can be translated for the client:
+	// one beyond the memory bound that arrives intact was buffered
+	if family == "big-error" && script.Err != nil && !script.CompressEnd && o.Kind == "error" && o.Msg == script.Err.Msg &&
+		e.Backend.Obs.Proto == "connect-unary" && !e.Backend.Obs.Direct && len(script.Err.Msg) > 4*int(limit)+64<<10 {
+		c.Violate(i, "oversized-error-body-delivered/"+feat, detail())
+		return
 	}
 	// (b) something does not fit: success is fine if nothing had to be buffered; failure must say resource_exhausted
 	if o.OK() || (script.Err != nil && o.Kind == "error" && o.Code == script.Err.Code && o.Msg == script.Err.Msg) {
